@@ -1,7 +1,7 @@
 (* Extraction of the executable model and the monitors.  ExtrOcamlBasic only: bool, option, unit,
    list, prod, sumbool, sumor are mapped to OCaml's own types; numbers stay Coq's binary Z/positive/N. *)
 From Coq Require Import ExtrOcamlBasic.
-From HC Require Import SpecMon Store FsAtomic Crypto Swr Conc.
+From HC Require Import SpecMon Store FsAtomic Crypto Swr Conc Wire.
 Extraction Language OCaml.
-Extraction "model.ml" monitor_all set_program get_program delete_program run_sched url_wf run_phases effective_swr_timeout swr_predict from_url_go with_encryption_go run_ops spec_step fs_step file_path run_history init_world parse_url make_url_key digits_val dec_of_Z bs
+Extraction "model.ml" monitor_all set_program get_program delete_program run_sched parse_entry canonical_key tp_trim cut url_wf run_phases effective_swr_timeout swr_predict from_url_go with_encryption_go run_ops spec_step fs_step file_path run_history init_world parse_url make_url_key digits_val dec_of_Z bs
   parse_directives normalize_header_value parse_imf_fixdate format_imf_fixdate.
